@@ -104,7 +104,7 @@ func runC13(c *Ctx) {
 		"waits on the close channel or the ticker, and on the not-hunted/not-closed exit every path to the return passes the restoring request (router pair). StartHunt inserts and starts the loop only when the MAC is not yet hunted, " +
 		"inside one arpMutex critical section; StopHunt deletes under the mutex. Not decided: real-time bounds, overlap of an old and a new loop after StopHunt/StartHunt."
 	r.Rule("send-classified", "every send in ProcessPacket/spoofLoop is truthful or a guarded forgery", 4)
-	r.Rule("loop-structure", "spoofLoop: membership test each iteration under the mutex, stoppable wait on its own timer, single exit, restore on exit", 7)
+	r.Rule("loop-structure", "spoofLoop: membership test each iteration under the mutex, stoppable wait on its own timer, single exit, restore on exit", 8)
 	r.Rule("hunt-admin", "StartHunt idempotent under the mutex; StopHunt deletes under the mutex; 6-byte MACs only, own copy", 6)
 	r.Rule("api-truthful", "Request/RequestTo/Probe use the host address pair as sender", 3)
 
@@ -385,6 +385,44 @@ func runC13(c *Ctx) {
 			// destination: the MAC the loop was started for
 			if !strings.HasSuffix(norm(args[1]), ".MAC") {
 				restored = false
+			}
+		}
+		// a released target is restored whatever else happened: the restore is decided by "not hunted" - a test of the
+		// closed flag in front of it drops the restore for the history StartHunt, StopHunt, Close within one cycle
+		for _, site := range callsIn(loop, nameIs("RequestRaw")) {
+			ins := site.(ssa.Instruction)
+			args := site.Common().Args
+			if len(args) != 4 || !strings.HasSuffix(norm(args[2]), "NICInfo.RouterAddr4") {
+				continue
+			}
+			gs := guardsOf(ins)
+			byHunt, byClosed := false, false
+			for _, g := range gs {
+				if strings.Contains(g.Text, ".huntList[") && strings.HasSuffix(g.Text, "#1") && !g.Pol {
+					byHunt = true
+				}
+				if strings.HasSuffix(g.Text, ".closed") {
+					byClosed = true
+				}
+			}
+			s3 := core.Proved
+			if !byHunt || byClosed {
+				s3 = core.Violated
+			}
+			r.Add(core.Obligation{Rule: "loop-structure", Key: "loop-structure a released target is restored even when the handler was closed meanwhile", Func: core.FuncName(loop), Pos: c.P.Pos(core.PosOf(ins)), Status: s3,
+				Basis: "the restoring request is guarded by 'not hunted', not by the closed flag", Detail: "the restoring request is sent under " + guardTexts(gs) + ": StartHunt(A), StopHunt(A), Close() within one cycle wakes the loop with closed set and A released, and A - poisoned by the first announcement - never gets the router's real MAC back"})
+			if byHunt && !byClosed {
+				for _, g := range gs {
+					if strings.Contains(g.Text, ".huntList[") && !g.Pol {
+						succ := g.Branch.Succs[1]
+						if g.Branch.Succs[0] == ins.Block() || g.Branch.Succs[0].Dominates(ins.Block()) {
+							succ = g.Branch.Succs[0]
+						}
+						if mustPassBlock(succ, func(j ssa.Instruction) bool { return j == ins }) && strings.HasSuffix(norm(args[1]), ".MAC") {
+							restored = true
+						}
+					}
+				}
 			}
 		}
 		st = core.Proved
